@@ -107,11 +107,12 @@ TPopBuf    == Is("PopBuf") /\ PopBuf /\ BufOK
 TFlush     == Is("Flush") /\ Flush(E.b) /\ BufOK
 TDelete    == Is("Delete") /\ Delete(E.b) /\ BufOK
 TRestart   == Is("Restart") /\ Restart(E.f + 1) /\ BufOK
+TReopen    == Is("Reopen") /\ Reopen(E.f + 1, E.bytes) /\ BufOK
 
 TNext == \/ TReset \/ TCall \/ TRead \/ TTok \/ TReject \/ TActEnd \/ TRet \/ TLess \/ TMore \/ TUnput \/ TInput
          \/ TBegin \/ TPush \/ TPop \/ TPopU \/ TTop \/ TSetBol \/ TEof \/ TEnd \/ TFin \/ TFatal
          \/ TWrapEnter \/ TWrapRet \/ TSetYyin \/ TNewBuf \/ TNewMem \/ TScanFail \/ TSwitch \/ TPushBuf
-         \/ TPopBuf \/ TFlush \/ TDelete \/ TRestart \/ TCounts \/ TReadFault \/ TInitFail
+         \/ TPopBuf \/ TFlush \/ TDelete \/ TRestart \/ TReopen \/ TCounts \/ TReadFault \/ TInitFail
 TSpec == TInit /\ [][TNext]_tvars
 
 Accepted == TLCGet("stats").diameter - 1 = Len(Tr)
